@@ -141,6 +141,29 @@ func C12(env *Env) {
 		}
 		if part.gc && part.cr {
 			env.c12State(e, entry)
+			// on every accept path the CA named in the PCK CRL request is the one the
+			// leaf's issuer common name selects (whatever helper computes it)
+			want := map[string]string{`"platform"`: `"Intel SGX PCK Platform CA"`, `"processor"`: `"Intel SGX PCK Processor CA"`}
+			leafCN := pat.Field(pat.Field(leaf, "Issuer"), "CommonName")
+			for i, a := range alts {
+				key := fmt.Sprintf("path#%d", i)
+				var ca *flow.Term
+				if u := findTerm(a, pat.Call("pcs.PckCrlURL", pat.Any())); u != nil {
+					ca = flow.StripConv(u.Args[0])
+				}
+				if ca == nil {
+					continue // a missing request is reported by C12/FETCH and C05
+				}
+				issuer, ok := want[ca.Name]
+				switch {
+				case ca.Op != flow.OpConst || !ok:
+					r.Fail("C12/CA", key, env.P.Pos(a.Ret.Pos()), "on an accept path the CA of the PCK CRL request is not a definite \"platform\" / \"processor\" choice: "+ca.String())
+				case hasGate(a, func(t *flow.Term) bool { return pat.Bin("==", leafCN, pat.Const(issuer))(t, pat.Bind{}) }, false) == nil:
+					r.Fail("C12/CA", key, env.P.Pos(a.Ret.Pos()), fmt.Sprintf("an accept path requests the PCK CRL of CA %s without having established that the common name of the PCK leaf certificate's issuer is %s", ca.Name, issuer))
+				default:
+					r.OK("C12/CA", key, env.P.Pos(a.Ret.Pos()), "PCK CRL requested for "+ca.Name+" on a path where the leaf's issuer CN is "+issuer)
+				}
+			}
 		}
 	}
 	// monotonicity
@@ -192,7 +215,6 @@ func C12(env *Env) {
 			r.OK("C12/MONO", o[0]+" <= "+o[1], env.P.Pos(entry.Pos()), fmt.Sprintf("%d accept paths under the larger assignment each cover an accept path under the smaller", len(hi)))
 		}
 	}
-	env.c12CA()
 	env.c12URLs()
 	r.Floor("C12/FETCH", 1+2+4)
 	r.Floor("C12/MONO", 3)
@@ -359,49 +381,6 @@ func dominatesInstr(a, b ssa.Instruction) bool {
 		return ia < ib
 	}
 	return a.Block().Dominates(b.Block())
-}
-
-// c12CA: the PCK CRL's CA argument follows the leaf's issuer common name.
-func (env *Env) c12CA() {
-	r := env.R
-	fn := env.fn("verify", "extractCaFromPckCert")
-	if fn == nil {
-		return
-	}
-	e := env.engine()
-	cn := pat.Is(fieldT(param(fn, 0), "Issuer", "CommonName"))
-	want := map[string]string{`"platform"`: `"Intel SGX PCK Platform CA"`, `"processor"`: `"Intel SGX PCK Processor CA"`}
-	seen := map[string]bool{}
-	for _, a := range e.EntryPaths(fn, flow.ModeErr) {
-		res := flow.StripConv(a.Results[0])
-		issuer, ok := want[res.Name]
-		if !ok || res.Op != flow.OpConst {
-			r.Fail("C12/CA", "result@"+env.P.Pos(a.Ret.Pos()), env.P.Pos(a.Ret.Pos()), "extractCaFromPckCert may only yield \"platform\" or \"processor\"; yields "+res.String())
-			continue
-		}
-		if hasGate(a, func(t *flow.Term) bool { return pat.Bin("==", cn, pat.Const(issuer))(t, pat.Bind{}) }, false) != nil {
-			seen[res.Name] = true
-			r.OK("C12/CA", res.Name, env.P.Pos(a.Ret.Pos()), res.Name+" iff leaf issuer CN == "+issuer)
-		} else {
-			r.Fail("C12/CA", res.Name, env.P.Pos(a.Ret.Pos()), fmt.Sprintf("CA %s must be chosen exactly when the leaf's issuer common name is %s", res.Name, issuer))
-		}
-	}
-	for k := range want {
-		if !seen[k] {
-			r.Fail("C12/CA", "missing-"+k, env.P.Pos(fn.Pos()), "no path yields CA "+k)
-		}
-	}
-	// the caller passes the leaf certificate
-	caller := env.fn("verify", "tdxQuoteV4")
-	if caller == nil {
-		return
-	}
-	for _, c := range env.P.Callers[fn] {
-		arg := e.Eval(c.Common().Args[0], e.UnknownCtx(c.Parent()))
-		if !strings.Contains(arg.String(), "PckCertChain") || strings.Count(arg.String(), "encoding/pem.Decode") != 1 {
-			r.Fail("C12/CA", "argument", env.P.Pos(c.Pos()), "the CA must be derived from the quote's leaf (first PEM block); argument is "+arg.String())
-		}
-	}
 }
 
 // c12URLs: the three URL builders.
